@@ -12,6 +12,19 @@ open Ak
 section NoStuck
 variable {σ : Type} [DecidableEq σ]
 
+theorem run_error_cases {G : Cfg σ} {toks : List (Tok σ)} :
+    ∀ (fuel : Nat) (st : List (Frame σ)) (e : Err), run G toks fuel st = .error e →
+      e = .outOfFuel ∨ e = .parsingError ∨ e = .indexError
+  | 0, _, e, h => by simp [run] at h; exact Or.inl h.symm
+  | fuel + 1, st, e, h => by
+    unfold run at h
+    split at h
+    · exact run_error_cases fuel _ e h
+    · simp at h
+    · simp at h; exact Or.inr (Or.inl h.symm)
+    · simp at h; exact Or.inr (Or.inr h.symm)
+
+
 /-- what the argument needs to know about the grammar and the token list -/
 structure NSHyp (C : TCtx σ) (init start endS : σ) : Prop where
   bottomRule : C.P.prods init = [[start, endS]]
